@@ -102,6 +102,12 @@ def handle : Handler := fun op j =>
       | some rj =>
         let rules ← listOf ruleOfJson rj
         pure (resultJson (writeKeywordIn rules U b cfg))
+  | "c15.write_variables" => some do
+      -- `base.write_variables(list)`: one step of the harness' `alternate` stream (the model is stateless: a fresh writer per call)
+      let b ← baseOfJson (← field j "base")
+      let U ← unitsOfJson (← field j "units")
+      let cfgs ← listOf cfgOfJson (← field j "cfgs")
+      pure (resultJson (writeVariables U b cfgs))
   | "c15.write_output" => some do
       let U ← unitsOfJson (← field j "units")
       let pb ← baseOfJson (← field j "pbase")
